@@ -257,6 +257,46 @@ def chained_oracle(rng):
     return None
 
 
+def bind_correspondence(ctx, rng, n):
+    """DependenceFunction.__init__ binding (model/Conditional.v dep_bind / free_params) against the real constructor: which inner
+    dependence function each keyword is bound to (functools.partial keywords, by identity) and which parameters remain"""
+    from virocon import DependenceFunction
+    pool = ["a", "b", "c", "d", "e", "f"]
+    cases, lines = [], []
+    inners = [DependenceFunction(eval("lambda x, p=%d.0: p + 0 * x" % i)) for i in range(6)]
+    for _ in range(n):
+        sig = rng.sample(pool, rng.randrange(1, 6))
+        ns = {}
+        exec("def user(x, %s):\n    return x" % ", ".join("%s=%d.5" % (nm, j) for j, nm in enumerate(sig)), ns)
+        keys = rng.sample(sig, rng.randrange(0, len(sig) + 1))      # (a keyword that is no parameter of the function would raise in Python: not generated)
+        rng.shuffle(keys)
+        kwargs = [(k, rng.randrange(6)) for k in keys]
+        df = DependenceFunction(ns["user"], **{k: inners[i] for k, i in kwargs})
+        bound = getattr(df.func, "keywords", {}) or {}
+        got_bound = [(k, next((i for i, f in enumerate(inners) if f is v), -1)) for k, v in bound.items()]
+        got_free = [(k, float(v)) for k, v in df.parameters.items()]
+        cases.append({"sig": sig, "kwargs": kwargs, "bound": got_bound, "free": got_free})
+        lines.append("(dep_bind [%s] [%s] [], map fst (free_params [%s] [%s]))" % (
+            "; ".join('"%s"%%string' % q for q in sig), "; ".join('("%s"%%string, %d%%nat)' % kv for kv in kwargs),
+            "; ".join('("%s"%%string, %d%%nat)' % (q, j) for j, q in enumerate(sig)), "; ".join('"%s"%%string' % k for k, _ in kwargs)))
+    outs = ctx.coq_eval_many([("bind_0", PRELUDE + "Eval vm_compute in [\n" + ";\n".join(lines) + "].\n")])
+    bad = 0
+    if outs and outs[0] is not None:
+        for c, v in zip(cases, vlib.parse_term(outs[0][0])):
+            mb, mf = v[0], v[1]
+            want_b = [(str(k).strip('"'), int(i)) for k, i in mb]
+            want_f = [str(k).strip('"') for k in mf]
+            ctx.count(("bind", tuple(c["sig"]), tuple(c["kwargs"])), bool(c["kwargs"]))
+            if want_b != c["bound"] or want_f != [k for k, _ in c["free"]]:
+                bad += 1
+                if bad <= 3:
+                    ctx.mismatch("DependenceFunction.__init__ binding", "signature %r, keyword arguments %r: bound %r / free %r, model: bound %r / free %r"
+                                 % (c["sig"], c["kwargs"], c["bound"], [k for k, _ in c["free"]], want_b, want_f))
+    else:
+        ctx.mismatch("DependenceFunction.__init__ binding", "the model could not be evaluated")
+    ctx.notes["bind_correspondence"] = {"cases": len(cases), "mismatches": bad}
+
+
 def replay(ctx, case):
     o = oracle(case)
     if o:
@@ -324,6 +364,7 @@ def run(ctx):
     o = chained_oracle(rng)
     if o is not None:
         ctx.violation(o[0], o[1], {"chained": True})
+    bind_correspondence(ctx, rng, ctx.n(60, 600))
     for c, r in list(zip(cases, results))[:2]:
         ctx.sample({"case": c, "recorded": {k: v for k, v in r.items() if k != "table"}})
     ctx.cov["rule"] = ("random template family x partition of its parameters into fixed/dependent x dependence shapes x 1-4 conditioning values, plus malformed constructor "
